@@ -7,6 +7,11 @@ def plan(tier, seed):
     ints += [H("c03::w2_%s" % t, "cubes, exactly FORMATTED_SIZE_DECIMAL bytes", "base +- d") for t in ("u32", "i64", "usize")]
     groups = [KGroup("D", ints, timeout=900, jobs=8, mem_gb=14, label="integers, exact buffer"),
               KGroup("D", [H("wf::d3_bound_3", "write_with_options::<f64> (Dragonbox stubbed to a symbolic decimal) into exactly buffer_size_const (=64) bytes: no panic, no out-of-bounds access, length within bound", "mantissa < 10^3, all exponents, max/min digits 0..8, breaks |b|<=12, round/trim symbolic")], timeout=2400, jobs=1, mem_gb=16, stubbing=True, label="floats, exact buffer")]
+    D4 = "write_with_options::<f64> (symbolic decimal) into exactly buffer_size_const bytes under extreme options: no panic, length within bound"
+    d4 = [H("wf::d4_mindigits", D4, "min digits 54..58, default breaks, mantissa < 10^3, all exponents"),
+          H("wf::d4_negbreak", D4, "negative break -46..-42, max digits 1..6, scientific exponent -48..-40"),
+          H("wf::d4_posbreak", D4, "positive break 60..63, max digits 1..3, scientific exponent 58..65")]
+    groups.append(KGroup("D", d4, timeout=1500, jobs=3, mem_gb=14, stubbing=True, label="floats, extreme options (three open findings)"))
     kernels = ["jeaiii_u8", "jeaiii_u16", "jeaiii_u32"]
     if tier == "thorough":
         groups.append(KGroup("R", [H("c03::radix::w3_u8_r2", "radix writer, FORMATTED_SIZE bytes", "all values"), H("c03::radix::w3_i16_r16", "", "all values")], timeout=900, jobs=2, mem_gb=14, label="radix"))
@@ -14,8 +19,9 @@ def plan(tier, seed):
         "kani": groups,
         "smt": {"features": (), "kernels": kernels},
         "functions_encoded": ["lexical_core::write (integers)", "jeaiii::from_u* (every unchecked table read and buffer write: in-bounds obligations at full width)", "float formatting layer (see C14)"],
-        "bounds": ["integers: buffer of exactly the documented size; floats: exactly Options::buffer_size_const for symbolic options in C14's ranges"],
-        "outside_claim": ["shorter-than-bound buffers (panic-but-no-UB twin not built)", "float options outside C14's ranges (min/max digits up to hundreds, breaks across the whole exponent range)", "lexical::to_string_with_options sizing"],
+        "bounds": ["integers: buffer of exactly the documented size; floats: exactly Options::buffer_size_const for symbolic options in C14's ranges",
+                   "floats, extreme options: three regions near the 64-byte floor of the bound (many minimum digits; far negative break; far positive break), mantissa < 10^3"],
+        "outside_claim": ["shorter-than-bound buffers (panic-but-no-UB twin not built)", "float options outside the stated regions (digits in the hundreds, breaks in the hundreds: same code paths as the three regions, longer loops)", "lexical::to_string_with_options sizing"],
         "stubs_and_assumes": ["to_decimal stubbed in the float harness"],
         "assumptions": [],
     }
